@@ -2,6 +2,7 @@ package main
 
 import (
 	"fmt"
+	"io"
 
 	"github.com/cockroachdb/redact"
 	i "github.com/cockroachdb/redact/interfaces"
@@ -13,8 +14,12 @@ var scripts = map[int][]*Act{}
 // hook script of the current case (RegisterRedactErrorFn), nil = no hook
 var hookScript []*Act
 
+// IDs are never reused, and built values are memoized: entries stay valid for the
+// lifetime of their values; the table is only emptied to bound memory.
 func resetScripts() {
-	scripts = map[int][]*Act{}
+	if len(scripts) > 200000 {
+		scripts = map[int][]*Act{}
+	}
 }
 
 // String / Error / GoString / SafeMessage: the first ret or panic decides.
@@ -45,6 +50,8 @@ func runAction(a *Act, sp redact.SafePrinter) {
 		panic(a.Args[0].Build())
 	case "write":
 		_, _ = sp.Write([]byte(a.S))
+	case "wstr":
+		_, _ = io.WriteString(sp, a.S)
 	case "ss":
 		sp.SafeString(redact.SafeString(a.S))
 	case "si":
@@ -89,6 +96,8 @@ func runFormatMethod(id int, s fmt.State, verb rune) {
 				panic(a.Args[0].Build())
 			case "write", "us", "ss":
 				_, _ = s.Write([]byte(a.S))
+			case "wstr":
+				_, _ = io.WriteString(s, a.S)
 			case "dump":
 				_, _ = s.Write([]byte(dumpState(s)))
 			}
